@@ -132,4 +132,32 @@ def unique : List Record → Bool
 /-- the two `Record` validators -/
 def recOK (r : Record) : Bool := !r.pSyn.contains r.pfx && !r.uSyn.contains r.uri
 
+/-- no string of the projection `f` is shared by two different positions -/
+def uniqueOn (f : Record → List Str) : List Record → Bool
+  | [] => true
+  | r :: rs => (rs.all fun s => disjoint (f r) (f s)) && uniqueOn f rs
+
+/-- what constructing the records and then a strict converter from them must do (C04):
+`none` = success -/
+def expectedInit (recs : List Record) : Option Err :=
+  if !recs.all recOK then some .validation
+  else if !uniqueOn Record.allU recs then some .dupUri
+  else if !uniqueOn Record.allP recs then some .dupPrefix
+  else none
+
+/-- all clashes `(prefix of one record, prefix of the other, shared string)` over pairs of
+different positions -/
+def clashes (f : Record → List Str) : List Record → List (Str × Str × Str)
+  | [] => []
+  | r :: rs => (rs.flatMap fun s => ((f r).filter fun x => (f s).contains x).map fun x => (r.pfx, s.pfx, x))
+      ++ clashes f rs
+
+/-- the listing an error must carry: URI clashes if there are any, else CURIE-prefix clashes -/
+def expectedListing (recs : List Record) : List (Str × Str × Str) :=
+  if !uniqueOn Record.allU recs then clashes Record.allU recs else clashes Record.allP recs
+
+/-- two listing entries denote the same clash (the two records unordered) -/
+def sameClash (a b : Str × Str × Str) : Bool :=
+  a.2.2 == b.2.2 && ((a.1 == b.1 && a.2.1 == b.2.1) || (a.1 == b.2.1 && a.2.1 == b.1))
+
 end Spec
